@@ -369,6 +369,41 @@ func TestFrontEndTotal(t *testing.T) {
 	} {
 		jobs = append(jobs, job{[]string{s}})
 	}
+	// grammar-directed shapes: every parser term form under every cardinality in every
+	// position of a production, and every lexer term form under every cardinality with
+	// every action list, as token, fragment and macro
+	nDirected := 0
+	{
+		pterms := []string{"X", "'x'", "r", "@list(X, C)", "@list(r, C)", "@list(X, ',')", "@list(X, r)", "@error", "@list(@error, C)",
+			"@list(@list(X, C), C)", "@list(X*, C)", "@list(X, C*)", "@list(X?, C)", "nosuch", "'nolit'", "s"}
+		cards := []string{"", "?", "*", "+", "*!", "??", "*!?", "+*"}
+		for _, t := range pterms {
+			for _, c := range cards {
+				for _, shape := range []string{"@start s = %s\n", "@start s = X %s\n", "@start s = %s X\n", "@start s = X | %s\n", "@start s = X %s X @left(1)\n", "@start s = q\nq = %s | q C\n"} {
+					spec := "@lexer\nX = 'x'\nC = ','\n@parser\n" + fmt.Sprintf(shape, t+c) + "r = X\n"
+					jobs = append(jobs, job{[]string{spec}})
+					nDirected++
+				}
+			}
+		}
+		lterms := []string{"'a'", "[a-z]", "~[a]", "[a-z]-[c]", ".", "MAC", "TOK", "('a' | 'b')", "('a' | )", "''", "[z-a]", "NOSUCH", "'a' 'b'", "\"a\"", "'\\u00e9'", "[\\u0000-\\U0010FFFF]"}
+		lcards := []string{"", "?", "*", "+", "*?", "+?", "??", "*+"}
+		acts := []string{"", " @discard", " @emit(TOK)", " @push_mode(M)", " @pop_mode", " @pop_mode @push_mode(M)", " @emit(TOK) @discard", " @push_mode(NoMode)", " @emit(NOSUCH)", " @discard @discard"}
+		for _, t := range lterms {
+			for _, c := range lcards {
+				for ai, a := range acts {
+					for k, kind := range []string{"ZT = 'k' %s%s\n", "@frag 'k' %s%s\n", "@macro ZM = 'k' %s\nZU = ZM%s\n", "ZT = %s%s\n"} {
+						if (ai+k)%2 == 1 && ai > 1 {
+							continue // thin the product: every action list still meets every kind through half of the terms
+						}
+						spec := "@lexer\nTOK = 't'\n@macro MAC = [m-n]\n" + fmt.Sprintf(kind, t+c, a) + "@mode M {\n  IN = 'i' @pop_mode\n}\n@parser\n@start s = TOK\n"
+						jobs = append(jobs, job{[]string{spec}})
+						nDirected++
+					}
+				}
+			}
+		}
+	}
 	// two files
 	jobs = append(jobs,
 		job{[]string{"@lexer\nP = '+'\n", "@lexer\nQ = '+'\n"}},
@@ -396,7 +431,7 @@ func TestFrontEndTotal(t *testing.T) {
 		}
 	})
 	rep.sample(jobs[0].files[0])
-	rep.done(t, false, fmt.Sprintf("%d seeded pseudo-random token sequences over %d lexical shapes (incl. malformed escapes, reversed ranges, huge numbers, bytes 0x00/0xff), 13 hand-listed edge shapes, 3 two-file specifications", n, len(soupWords)))
+	rep.done(t, false, fmt.Sprintf("%d seeded pseudo-random token sequences over %d lexical shapes (incl. malformed escapes, reversed ranges, huge numbers, bytes 0x00/0xff), 13 hand-listed edge shapes, %d grammar-directed shapes (parser term forms x cardinalities x positions; lexer term forms x cardinalities x action lists x token/fragment/macro), 3 two-file specifications", n, len(soupWords), nDirected))
 }
 
 // panicClass gives a stable short name to a panic so that distinct defects are distinct obligations.
